@@ -11,6 +11,7 @@ import warnings
 
 from vf import ref_schema as S
 from vf import universe as U
+from vf.checks import c06
 from vf.core import disturb_process
 from vf.core import vacuous, HarnessError, Tally
 
@@ -49,9 +50,32 @@ def walk(inst, path):
     return cur
 
 
+def falsify(term):
+    """the term with every Bool False, every Integer 0 and every Decimal zero (values a truthiness test takes for absent)"""
+    import decimal
+
+    name, kw, members = term
+    cm = S.child_map(U.cls_by_name(name))
+    kw2 = {}
+    for k, v in kw.items():
+        c = cm[k]
+        if S._isterm(v):
+            kw2[k] = falsify(v)
+        elif c.kind == "elem" and c.typ == "Bool":
+            kw2[k] = False
+        elif c.kind == "elem" and c.typ == "Integer":
+            kw2[k] = 0
+        elif c.kind == "elem" and c.typ == "Decimal":
+            kw2[k] = decimal.Decimal("0.00")
+        else:
+            kw2[k] = v
+    return (name, kw2, [falsify(m) if S._isterm(m) else m for m in members])
+
+
 def shapes(cls, thorough):
     yield "MIN", U.MIN(cls)
     yield "MAXS", U.MAXS(cls)
+    yield "MAXS-falsy-values", falsify(U.MAXS(cls))
     mx = U.MAXS(cls)
     dims = U.dimensions(cls, mx, ("MIN", "MAXS") if thorough else ("MIN",))
     for label, states in dims:
@@ -266,6 +290,12 @@ def work(chunk):
             check_misses(t, clsname, shape, inst)
             check_copies(t, clsname, shape, inst)
             check_aliases(t, clsname, shape, inst)
+            if shape == "MAXS":
+                # once more with the library's loggers at DEBUG
+                with c06.verbose_logging({"loglevel": "DEBUG"}):
+                    check_lookup(t, clsname, shape + "+logging-at-DEBUG", inst, names, own)
+                    check_misses(t, clsname, shape + "+logging-at-DEBUG", inst)
+                    check_copies(t, clsname, shape + "+logging-at-DEBUG", inst)
         t.count("classes")
     return t
 
@@ -345,6 +375,31 @@ def ofx_work(chunk):
                        f"seq {seq}: got {[type(x).__name__ for x in g2]}, expected {[type(x).__name__ for x in e2]}")
             else:
                 t.outcome("msgset-statements-ok")
+        # the shortcuts walk the tree as it is NOW: a wrapper appended to / removed from a message set after a first read
+        for mset, ws in wrappers.items():
+            src = next(((w, sattr) for (ms, w, sattr) in order if ms == mset and sattr is not None and vars(w).get(sattr) is not None), None)
+            if src is None:
+                continue
+            t.count("evaluations")
+            import copy as _copy
+
+            extra = _copy.deepcopy(src[0])
+            m = vars(ofx)[mset]
+            before = list(ofx.statements)
+            m.append(extra)
+            try:
+                after = ofx.statements
+                ok = len(after) == len(before) + 1 and any(x is vars(extra)[src[1]] for x in after) and any(x is vars(extra)[src[1]] for x in m.statements)
+                m.pop()
+                again = ofx.statements
+                ok = ok and len(again) == len(before) and all(a is b for a, b in zip(again, before))
+            except Exception as e:
+                t.fail(f"C16|OFX|statements|after-editing-the-tree|raises-{type(e).__name__}", case, str(e))
+                continue
+            if not ok:
+                t.fail(f"C16|OFX|statements|{side}|after-editing-the-tree|stale", dict(case, edited=mset), f"{mset}: {len(before)} statements, wrapper appended -> {len(after)}, removed again -> {len(again)}")
+            else:
+                t.outcome("ofx-statements-follow-edits")
         t.count("evaluations")
         sg = vars(vars(ofx)[son]).get("sonrq" if side == "rq" else "sonrs")
         if ofx.signon is not sg:
@@ -368,6 +423,12 @@ def ofx_work(chunk):
                 t.fail("C16|OFX|securities|wrong-list", {"side": "sec", "nlists": nlists, "nsec": nsec}, f"{len(got)} vs {len(allsec)}")
             else:
                 t.outcome("securities-ok")
+            if nlists:
+                more = U.build(U.vary(U.MIN(M.STOCKINFO), 7))
+                kw["seclistmsgsrsv1"].append(M.SECLIST(more))
+                got2 = ofx.securities
+                if len(got2) != len(allsec) + 1 or got2[-1] is not more:
+                    t.fail("C16|OFX|securities|after-editing-the-tree|stale", {"side": "sec", "nlists": nlists, "nsec": nsec}, f"{len(got2)} vs {len(allsec) + 1}")
     return t
 
 
@@ -394,10 +455,10 @@ def run(ctx):
     cov = {
         "evaluations": tally.counts.get("evaluations", 0),
         "distinct_nontrivial": tally.counts.get("lookups", 0),
-        "rule": "every class x shapes {MIN, MAXS, MAXS with each optional sub-aggregate toggled / each group switched / each repeated kind at 0,1,2,3 members"
+        "rule": "every class x shapes {MIN, MAXS, MAXS with every Bool False / Integer 0 / Decimal zero, MAXS with the loggers at DEBUG, MAXS with each optional sub-aggregate toggled / each group switched / each repeated kind at 0,1,2,3 members"
         + (", sub-aggregates at MAXS, MAXD" if ctx.thorough else "") + "} x every name declared by exactly one non-repeated descendant aggregate and not by the class itself (must be the stored "
         "object, or a clean miss when the defining aggregate is absent) + 6 undefined names (AttributeError, hasattr False, default honoured) + copy/deepcopy/pickle of the instance as built and as read back from its own element tree (equal model) "
-        "+ alias properties; OFX trees from every sequence of <=3 wrappers over 7 request / 8 response kinds: OFX.statements and each message set's statements equal the explicit "
+        "+ alias properties; OFX trees from every sequence of <=3 wrappers over 7 request / 8 response kinds: (and again after a wrapper was appended to / removed from a message set) OFX.statements and each message set's statements equal the explicit "
         "walk by identity and order; OFX.securities over 0-2 lists x 0-2 securities; distinct_nontrivial = proxy look-ups",
         "instances": tally.counts.get("instances", 0),
         "ofx_trees": tally.counts.get("ofx-trees", 0),
